@@ -355,7 +355,7 @@ def check_filter_structure(c, mf):
     if got != want:
         return ("string-literals", "got %r want %r" % (got[:8], want[:8]))
     gotn = sorted(x.lower() for x in numbers_of(c, []))
-    wantn = sorted(x.lower() for x in d.numbers)
+    wantn = sorted(str(x).lower() for x in d.numbers)
     if gotn != wantn:
         return ("numbers", "got %r want %r" % (gotn, wantn))
     return None
